@@ -157,20 +157,21 @@ partial def traverse (cid uid : Nat) (state : Nat)
 
 /- `wsConn.tryDelete` (gc states: 0 stop, 1 root, 2 none, 3 delete, 4 keep, 5 unsend). -/
 
-/-- The two passes of `tryDelete` with an explicit memo table. -/
+/-- The two passes of `tryDelete` with an explicit memo table, keyed by subscription object (uid). -/
 partial def tryDeleteCore (cid uid : Nat) (sent : Bool) (sentDiff : Int) : M Unit := do
   let s ← getSub cid uid
   if s.direct > 0 then return
   let memo0 : List (String × Nat × Int × Int × Nat) := [(s.rid, uid, s.indirect, s.indirectsent, 2)]
   let memo1 ← pass1 cid uid 1 sentDiff memo0
-  let rr := (memo1.find? (·.1 == s.rid)).getD default
+  let rr := (memo1.find? (·.2.1 == uid)).getD default
   let (_, _, rind, rsent, _) := rr
   if rind > 0 && !(sent && rsent == 0) then return
   let (memo2, _) ← pass2 cid uid 3 sent memo1
   for (rid, u, _, _, st) in memo2 do
     if st == 3 then
       disposeSub cid u
-      modConn cid fun c => { c with subs := sdel c.subs rid }
+      -- only the table entry of this very subscription object is removed
+      modConn cid fun c => if sget c.subs rid == some u then { c with subs := sdel c.subs rid } else c
     else if st == 5 then
       unsendSub cid u
 
@@ -182,9 +183,9 @@ partial def pass1 (cid uid : Nat) (state : Nat) (sentDiff : Int)
   -- callback
   let (memo, st) :=
     if state == 1 then (memo, 2)
-    else match memo.find? (·.1 == s.rid) with
+    else match memo.find? (·.2.1 == uid) with
       | some (r, u, i, is, gs) =>
-        (memo.map (fun e => if e.1 == r then (r, u, i - 1, is - sentDiff, gs) else e), 0)
+        (memo.map (fun e => if e.2.1 == u then (r, u, i - 1, is - sentDiff, gs) else e), 0)
       | none => (memo ++ [(s.rid, uid, s.indirect - 1, s.indirectsent - sentDiff, 2)], 2)
   if st == 0 then return memo
   let mut memo := memo
@@ -198,9 +199,10 @@ partial def pass2 (cid uid : Nat) (state : Nat) (sent : Bool)
     M (List (String × Nat × Int × Int × Nat) × Unit) := do
   let s ← getSub cid uid
   if s.direct > 0 then return (memo, ())
-  let (r, u, i, is, gs) := (memo.find? (·.1 == s.rid)).getD default
+  let some (r, u, i, is, gs) := memo.find? (·.2.1 == uid)
+    | do doPanic "tryDelete: subscription not registered by the first pass"; return (memo, ())
   let setSt := fun (m : List (String × Nat × Int × Int × Nat)) (n : Nat) =>
-    m.map (fun e => if e.1 == r then (r, u, i, is, n) else e)
+    m.map (fun e => if e.2.1 == u then (r, u, i, is, n) else e)
   -- callback
   let (memo, st) :=
     if gs ≥ 4 then (memo, 0)
